@@ -315,3 +315,19 @@ def hyphen_joined(node):
             and node.func.value.value == "-" and len(node.args) == 1 and isinstance(node.args[0], (ast.Tuple, ast.List)) and len(node.args[0].elts) == 2:
         return list(node.args[0].elts)
     return None
+
+
+def callback_function(expr, enclosing_fn=None, methods=None):
+    """the function a callback expression denotes: a lambda, a closure of enclosing_fn (by name), a bound method
+    self.<m> of the class (methods: name -> FunctionDef), or functools.partial(<one of those>, ..); else None"""
+    if isinstance(expr, ast.Lambda):
+        return expr
+    if isinstance(expr, ast.Call) and dotted(expr.func) in ("functools.partial", "partial") and expr.args:
+        return callback_function(expr.args[0], enclosing_fn, methods)
+    if isinstance(expr, ast.Name) and enclosing_fn is not None:
+        for n in ast.walk(enclosing_fn):
+            if isinstance(n, (ast.FunctionDef, ast.AsyncFunctionDef)) and n is not enclosing_fn and n.name == expr.id:
+                return n
+    if methods is not None and is_self_attr(expr) and expr.attr in methods:
+        return methods[expr.attr]
+    return None
